@@ -77,6 +77,9 @@ def mass_algebra(eng, res, rule="R-MASS-ALGEBRA"):
                     continue
                 tsym = SYM[n.targets[0].attr]
                 m = monomial(n.value, env)
+                if m is None:
+                    # the expression may be spread over single-assignment temporaries (`share = self.relative_mass / 100`)
+                    m = monomial(flow.expand_names(n.value, cfg.node_of(n)), env)
                 role = f"{name}.setter:{tsym}"
                 if m is None:
                     res.ob(rule, fi, role, "derived mass is a product/quotient of the two other quantities", n, False, f"not a monomial: {src(n.value)}")
@@ -94,13 +97,17 @@ def mass_algebra(eng, res, rule="R-MASS-ALGEBRA"):
                 res.ob(rule, fi, role, "the assignment is the one relation 100 · absolute = relative · system", n, ok,
                        f"normal form: {c} · " + " · ".join(f"{k}^{v}" for k, v in sorted(rel.items())) + " = 1")
                 # guard: the quantities read are known on that path
-                reads = {SYM[x.attr] for x in ast.walk(n.value) if isinstance(x, ast.Attribute) and x.attr in SYM}
+                reads = {SYM[x.attr] for x in ast.walk(flow.expand_names(n.value, cfg.node_of(n))) if isinstance(x, ast.Attribute) and x.attr in SYM}
                 conds = cfg.guard_exprs(cfg.node_of(n))
                 known = set()
                 for t, pol in conds:
                     s_ = src(t)
                     for a, sym in SYM.items():
                         if pol and (s_ == f"self.{a}" or s_ == f"self.{a} is not None"):
+                            known.add(sym)
+                        if not pol and s_ in (f"self.{a} is None", f"not self.{a}"):
+                            known.add(sym)
+                        if pol and s_ in (f"not self.{a} is None", f"not (self.{a} is None)"):
                             known.add(sym)
                 res.ob(rule, fi, role + ":guard", "it is applied only when the quantities it reads are known", n, reads <= known | set(env.values()),
                        f"reads {sorted(reads)}, known on this path {sorted(known | set(env.values()))}")
